@@ -111,54 +111,61 @@ class MXCSRRegister:
 
     def __call__(self, FZ=None, DAZ=None, RN=None):
 
-        current = self.get_mxcsr()
-        new_value = current.value
-
         if RN is not None:
-            r = dict(nearest=0, down=1, up=2, towardszero=3)[RN]
-            if r == 0:
-                new_value &= ~(1 << 14)
-                new_value &= ~(1 << 13)
-            elif r == 1:
-                new_value &= ~(1 << 14)
-                new_value |= 1 << 13
-            elif r == 2:
-                new_value |= 1 << 14
-                new_value &= ~(1 << 13)
-            elif r == 3:
-                new_value |= 1 << 14
-                new_value |= 1 << 13
-            else:
-                assert 0  # unreachable
+            # validate eagerly
+            dict(nearest=0, down=1, up=2, towardszero=3)[RN]
 
-        if FZ is not None:
-            if FZ:
-                new_value |= 1 << 15
-            else:
-                new_value &= ~(1 << 15)
+        def get_desired_state(current):
+            # Apply the requested changes to the state found when the
+            # context is entered (not when it was created) so that all
+            # other register bits are left as they are.
+            new_value = current.value
 
-        if DAZ is not None:
-            if DAZ:
-                new_value |= 1 << 6
-            else:
-                new_value &= ~(1 << 6)
+            if RN is not None:
+                r = dict(nearest=0, down=1, up=2, towardszero=3)[RN]
+                if r == 0:
+                    new_value &= ~(1 << 14)
+                    new_value &= ~(1 << 13)
+                elif r == 1:
+                    new_value &= ~(1 << 14)
+                    new_value |= 1 << 13
+                elif r == 2:
+                    new_value |= 1 << 14
+                    new_value &= ~(1 << 13)
+                elif r == 3:
+                    new_value |= 1 << 14
+                    new_value |= 1 << 13
+                else:
+                    assert 0  # unreachable
 
-        new = ctypes.c_uint32(new_value)
+            if FZ is not None:
+                if FZ:
+                    new_value |= 1 << 15
+                else:
+                    new_value &= ~(1 << 15)
+
+            if DAZ is not None:
+                if DAZ:
+                    new_value |= 1 << 6
+                else:
+                    new_value &= ~(1 << 6)
+
+            return ctypes.c_uint32(new_value)
 
         class context(contextlib.ContextDecorator):
-            def __init__(self, register, desired_state):
+            def __init__(self, register, get_desired_state):
                 self.register = register
                 self.saved_state = None
-                self.desired_state = desired_state
+                self.get_desired_state = get_desired_state
 
             def __enter__(self):
                 assert self.saved_state is None
                 self.saved_state = self.register.get_mxcsr()
-                self.register.set_mxcsr(self.desired_state)
+                self.register.set_mxcsr(self.get_desired_state(self.saved_state))
 
             def __exit__(self, exc_type, exc, exc_tb):
                 assert self.saved_state is not None
                 self.register.set_mxcsr(self.saved_state)
                 self.saved_state = None
 
-        return context(self, new)
+        return context(self, get_desired_state)
